@@ -683,6 +683,27 @@ func (r *rewriter) rewriteRangeMap(n *ast.RangeStmt, c *astutil.Cursor) ast.Stmt
 	if n.Value != nil {
 		val = n.Value
 	}
+	// The value variable of a range statement is one variable for the whole loop (the module's language version is
+	// below go1.22): a closure or goroutine started in the body that captures it sees what later iterations assign.
+	// Declaring it per iteration would hide exactly that kind of defect, so it is declared once, before the loop
+	// (not possible under a label, where the loop statement has to stay the labelled statement).
+	_, labeled := c.Parent().(*ast.LabeledStmt)
+	if vid, ok := val.(*ast.Ident); ok && vid.Name != "_" && !labeled {
+		if m == n.X {
+			mv := ast.NewIdent(r.name("m"))
+			pre = append(pre, &ast.AssignStmt{Lhs: []ast.Expr{mv}, Tok: token.DEFINE, Rhs: []ast.Expr{m}})
+			m = mv
+		}
+		pre = append(pre,
+			&ast.AssignStmt{Lhs: []ast.Expr{val}, Tok: token.DEFINE, Rhs: []ast.Expr{call(schedSel("MapZero"), m)}},
+			&ast.AssignStmt{Lhs: []ast.Expr{ast.NewIdent("_")}, Tok: token.ASSIGN, Rhs: []ast.Expr{val}})
+		declOK := &ast.AssignStmt{Lhs: []ast.Expr{okv}, Tok: token.DEFINE, Rhs: []ast.Expr{ast.NewIdent("false")}}
+		assign := &ast.AssignStmt{Lhs: []ast.Expr{val, okv}, Tok: token.ASSIGN, Rhs: []ast.Expr{&ast.IndexExpr{X: m, Index: key}}}
+		cont := &ast.IfStmt{Cond: &ast.UnaryExpr{Op: token.NOT, X: okv}, Body: &ast.BlockStmt{List: []ast.Stmt{&ast.BranchStmt{Tok: token.CONTINUE}}}}
+		body := &ast.BlockStmt{List: append([]ast.Stmt{declOK, assign, cont}, n.Body.List...)}
+		loop := &ast.RangeStmt{Key: ast.NewIdent("_"), Value: key, Tok: token.DEFINE, X: call(schedSel("MapKeys"), m), Body: body}
+		return &ast.BlockStmt{List: append(pre, loop)}
+	}
 	lookup := &ast.AssignStmt{Lhs: []ast.Expr{val, okv}, Tok: token.DEFINE, Rhs: []ast.Expr{&ast.IndexExpr{X: m, Index: key}}}
 	cont := &ast.IfStmt{Cond: &ast.UnaryExpr{Op: token.NOT, X: okv}, Body: &ast.BlockStmt{List: []ast.Stmt{&ast.BranchStmt{Tok: token.CONTINUE}}}}
 	body := &ast.BlockStmt{List: append([]ast.Stmt{lookup, cont}, n.Body.List...)}
